@@ -17,6 +17,10 @@ ARGS = {
     's': ((), float, None),
     'z': ((2,), complex, None), 'Z': ((3,), complex, None),
     'm': ((3,), bool, None),
+    # equal-length axes: an axis mix-up in a rewrite rule is silent (no shape error) only when the lengths agree
+    'K': ((2, 2, 2), float, None), 'L': ((2, 2, 2), float, None), 'R': ((4, 2, 2), float, None), 'P': ((2, 3, 2), float, None), 'H': ((2, 2, 3), float, None),
+    'u': ((2,), float, None), 'v': ((2,), float, None), 'W': ((2, 2), float, None),
+    'c': ((2, 2, 2), int, (0, 1)),
     'n': ((), int, (0, 2)), 'k': ((2,), int, (0, 2)), 'j': ((3,), int, (-3, 3)), 'p': ((3,), int, (0, 1)),
 }
 
@@ -25,6 +29,9 @@ CVECS = {
     'one1': numpy.array([1]), 'neg2': numpy.array([-1, 0]), 'id3': numpy.array([0, 1, 2]), 'dup2': numpy.array([1, 1]),
     'fvec3': numpy.array([1., -2., .5]), 'fmat': numpy.array([[1., 2., 0.], [0., -1., .5], [0., 0., 3.]]), 'bvec3': numpy.array([True, False, True]),
     'ivec3': numpy.array([1, -2, 3]), 'perm2': numpy.array([1, 0]),
+    # multi-axis index blocks (Inflate/Take with index.ndim > 1); idx223 has distinct entries in range(12), dup223 repeats some, idx22 is 2-d
+    'idx223': numpy.array([[[5, 0, 7], [2, 9, 4]], [[11, 6, 1], [8, 3, 10]]]), 'dup223': numpy.array([[[5, 0, 7], [2, 5, 4]], [[1, 6, 1], [8, 3, 0]]]),
+    'idx232': numpy.array([[[5, 0], [7, 2], [9, 4]], [[11, 6], [1, 8], [3, 10]]]), 'idx22': numpy.array([[3, 0], [1, 2]]), 'dup22': numpy.array([[1, 0], [1, 2]]),
 }
 
 def arg(name):
@@ -83,7 +90,8 @@ OPS = {
     'unravel': lambda a, axis, n1, n2: ev.unravel(a, _ax(a, axis), (C(n1), C(n2))) if _len(a, _ax(a, axis)) == n1 * n2 else _ill(),
     'take': lambda a, idx, axis: ev.take(a, idx, _ax(a, axis)) if idx.ndim == 1 else (ev.get(a, _ax(a, axis), ev.InRange(idx, a.shape[_ax(a, axis)])) if idx.ndim == 0 and idx.dtype == int else _ill()),
     'get': lambda a, axis, item: ev.get(a, _ax(a, axis), C(item)) if -_len(a, _ax(a, axis)) <= item < _len(a, _ax(a, axis)) else _ill(),
-    'inflate': lambda a, idx, n, axis: ev._inflate(a, idx, C(n), _ax(a, axis)),
+    'inflate': lambda a, idx, n, axis: ev._inflate(a, idx, C(n), _ax(a, axis)) if tuple(_shape(a)[_ax(a, axis):_ax(a, axis) + idx.ndim]) == _shape(idx) else _ill(),
+    'taken': lambda a, idx, axis: ev._take(a, idx, _ax(a, axis)),   # index block of any dimension
     'det': lambda a: ev.determinant(a) if a.ndim >= 2 else _ill(), 'inv': lambda a: ev.inverse(a) if a.ndim >= 2 else _ill(),
     'guard': lambda a: ev.Guard(a),
     'legendre': lambda a, d: ev.Legendre(a, d),
@@ -313,6 +321,70 @@ def random_program(rng, maxdepth, leaves=None):
         return a
     return gen(maxdepth)
 
+# ---------------------------------------------------------------- targeted structural family (equal-length axes, multi-axis index blocks, multi-factor products)
+
+CUBE_LEAVES = [('arg', 'K'), ('arg', 'R'), ('arg', 'P'), ('arg', 'H')]
+
+def structural_forms(a):
+    '''the structural constructors (the ones with swap rules), all axis parameters, on sub-program a'''
+    for axis in (0, 1, -1):
+        yield ('sum', a, axis); yield ('product', a, axis)
+        yield ('insertaxis', a, axis, 2)
+        yield ('ravel', a, axis)
+        yield ('get', a, axis, 1)
+        for iv in ('perm2', 'dup2', 'perm3', 'sub2'): yield ('take', a, ('cvec', iv), axis)
+        yield ('taken', a, ('cvec', 'idx22'), axis); yield ('taken', a, ('cvec', 'dup22'), axis)
+        yield ('take', a, ('arg', 'k'), axis)
+        for iv, n in (('perm2', 2), ('dup2', 3), ('perm3', 3), ('dup3', 4), ('idx22', 4), ('dup22', 3), ('idx223', 12), ('dup223', 9), ('idx232', 12)):
+            yield ('inflate', a, ('cvec', iv), n, axis)
+        yield ('unravel', a, axis, 2, 2); yield ('unravel', a, axis, 2, 1); yield ('unravel', a, axis, 1, 2); yield ('unravel', a, axis, 3, 1)
+    yield ('transpose', a, 'r'); yield ('transpose', a, 'c'); yield ('swap', a, 0, -1); yield ('swap', a, 0, 1)
+    for i, j in ((0, 1), (0, 2), (1, 2), (-2, -1), (0, -1)): yield ('takediag', a, i, j)
+    for i, j in ((0, 1), (-1, -1), (0, 0), (-1, 0), (1, 1), (0, 2)): yield ('diagonalize', a, i, j)
+    yield ('det', a); yield ('inv', a)
+    yield ('loop_sum', ('take', a, ('lidx', 'i', 2), 0), ('lidx', 'i', 2)); yield ('loop_sum', ('take', a, ('lidx', 'i', 2), -1), ('lidx', 'i', 2))
+    yield ('loop_concat', ('insertaxis', ('take', a, ('lidx', 'i', 2), 1), -1, 1), ('lidx', 'i', 2))
+    yield ('loop_concat', ('take', a, ('lidx', 'i', 2), 0), ('lidx', 'i', 2))
+
+def cube_binary():
+    K, L, c = ('arg', 'K'), ('arg', 'L'), ('arg', 'c')
+    yield ('choose', c, K, L); yield ('mul', K, L); yield ('add', K, ('transpose', L, 'r')); yield ('mul', K, ('transpose', L, 'c')); yield ('sub', K, ('swap', L, 0, 1))
+    yield ('min', K, L); yield ('max', K, ('transpose', L, 'r')); yield ('pow', ('abs', K), L); yield ('div', K, ('exp', L)); yield ('arctan2', K, L)
+    yield ('gt', K, L); yield ('eq', ('toint', ('gt0', K)), c); yield ('mod', c, ('add', c, ('ci', 1))); yield ('floordiv', c, ('add', c, ('ci', 1)))
+    yield ('mul', K, ('insertaxis', ('arg', 'W'), 0, 2)); yield ('mul', K, ('insertaxis', ('arg', 'W'), 1, 2)); yield ('mul', K, ('insertaxis', ('arg', 'W'), 2, 2))
+    yield ('add', K, ('insertaxis', ('insertaxis', ('arg', 'u'), 0, 2), 2, 2)); yield ('mul', K, ('diagonalize', ('arg', 'W'), 0, 2)); yield ('mul', K, ('diagonalize', ('arg', 'W'), 1, 2))
+    yield ('stack', ('get', K, 0, 0), ('get', L, 1, 1), 1); yield ('concat', K, L, 1); yield ('polyval2', ('arg', 'W'), ('arg', 'P')); yield ('polyval1', ('arg', 'u'), K)
+    yield ('choose', ('toint', ('gt0', K)), K, L); yield ('mul', ('tofloat', c), K); yield ('choose', c, ('toint', ('gt0', K)), c)
+
+def multi_factor():
+    '''products / sums of >= 3 factors with different axis supports (cluster logic of sparse extraction, einsum absorption)'''
+    u, v, W, Q = ('arg', 'u'), ('arg', 'v'), ('arg', 'W'), ('arg', 'Q')
+    ui = ('insertaxis', u, 1, 2); vj = ('insertaxis', v, 0, 2)
+    for a, b, c in itertools.permutations([ui, vj, W]):
+        yield ('mul', ('mul', a, b), c); yield ('mul', a, ('mul', b, c)); yield ('add', ('mul', a, b), c); yield ('mul', ('add', a, b), c)
+    yield ('mul', ('mul', ('outer', u, v), W), Q); yield ('mul', ('outer', u, v), ('mul', W, ('transpose', Q, 'r')))
+    yield ('mul', ('mul', ui, vj), ('diagonalize', u, 0, 1)); yield ('mul', ('diagonalize', u, 0, 1), ('mul', W, vj)); yield ('mul', ('mul', W, ui), ('inflate', v, ('cvec', 'perm2'), 2, 0) if False else ('insertaxis', ('inflate', v, ('cvec', 'perm2'), 2, 0), 0, 2))
+    K = ('arg', 'K')
+    uk = ('insertaxis', ('insertaxis', u, 1, 2), 2, 2); wjk = ('insertaxis', W, 0, 2); wik = ('insertaxis', W, 1, 2)
+    for a, b, c in itertools.permutations([uk, wjk, wik]): yield ('mul', ('mul', a, b), c)
+    yield ('mul', ('mul', uk, wjk), K); yield ('mul', K, ('mul', wik, uk)); yield ('sum', ('mul', ('mul', uk, wjk), K), 1); yield ('sum', ('mul', ('mul', wik, wjk), uk), 0)
+    yield ('loop_sum', ('mul', ('mul', ('take', u, ('lidx', 'i', 2), 0), ('take', W, ('lidx', 'i', 2), 0)), ('take', K, ('lidx', 'i', 2), 1)), ('lidx', 'i', 2))
+    yield ('loop_sum', ('inflate', ('mul', ('take', K, ('lidx', 'i', 2), 0), ('insertaxis', ('take', W, ('lidx', 'i', 2), 1), 0, 2)), ('cvec', 'dup22'), 3, 0), ('lidx', 'i', 2))
+
+def structured(level=2):
+    '''targeted family: structural constructor pairs over equal-length leaves, structural constructors over binary nodes, multi-factor products'''
+    for a in CUBE_LEAVES:
+        for f in structural_forms(a):
+            yield f
+            if level >= 2:
+                for g in structural_forms(f): yield g
+    for b in list(cube_binary()) + list(multi_factor()):
+        yield b
+        for g in structural_forms(b):
+            yield g
+            if level >= 3:
+                for h in structural_forms(g): yield h
+
 # programs quoted in properties.jsonl and found earlier (always included)
 CORPUS = [
     ('sqrt', ('sqrt', ('pow_i2f', ('arg', 'x'), 4))),
@@ -332,6 +404,8 @@ CORPUS = [
     ('mul', ('min', ('abs', ('arg', 'x')), ('max', ('arg', 'y'), ('neg', ('arg', 'y')))), ('sign', ('arg', 'x'))),
     ('mod', ('add', ('range', 3), ('arg', 'n')), ('ci', 3)),
     ('takediag', ('mul', ('inflate', ('arg', 'T'), ('cvec', 'dup3') if False else ('cvec', 'perm3'), 3, 2) if False else ('arg', 'N'), ('diagonalize', ('arg', 'x'), 0, 1)), -2, -1),
+    ('takediag', ('choose', ('arg', 'c'), ('arg', 'K'), ('arg', 'L')), 0, 1),     # diagonal(choose(i,[a,b])) transposed for square operands (fixed: e605220)
+    ('takediag', ('choose', ('arg', 'c'), ('arg', 'K'), ('arg', 'L')), 0, 2),
 ]
 
 def default_args(names, variant=0):
